@@ -361,7 +361,7 @@ def is_convex_ccw(xy):
     return bool(abs(turn.sum() - 2 * np.pi) < 1e-6)
 
 
-def polygon_case(rng, allow_tilt=True, kind=None, straight_frac=0.12):
+def polygon_case(rng, allow_tilt=True, kind=None, straight_frac=0.12, far_frac=0.0):
     """One G-poly case: 3-D vertex list, the stated normal (or None), and facts."""
     xy, k = simple_polygon_2d(rng)
     if kind is not None:
@@ -419,6 +419,18 @@ def polygon_case(rng, allow_tilt=True, kind=None, straight_frac=0.12):
         V[:, :2] += rng.uniform(-3, 3, size=2) * scale
     elif k == "lattice":
         V[:, :2] += rng.integers(-10, 11, size=2)
+    far = 0.0
+    if far_frac and rng.random() < far_frac:
+        # the same polygon very far from the origin for its size (map coordinates, a lattice site far out): 1e5..3e6 sizes,
+        # moved within its own plane (lattice polygons by whole numbers, so they stay exact)
+        e1_, e2_ = (np.array([1.0, 0, 0]), np.array([0, 1.0, 0])) if not tilt else (R @ np.array([1.0, 0, 0]), R @ np.array([0, 1.0, 0]))
+        ang_ = rng.uniform(0, 2 * np.pi)
+        mag = diameter(V) * float(10 ** rng.uniform(5, 6.5))
+        tvec = (math.cos(ang_) * e1_ + math.sin(ang_) * e2_) * mag
+        if k == "lattice" and not tilt:
+            tvec = np.round(tvec)
+        V = V + tvec
+        far = mag / diameter(V)
     # default normal of coxeter = cross(v2-v1, v0-v1) normalised; orientation about it
     mode = str(rng.choice(["default", "plus", "minus"]))
     if straight == 1:
@@ -442,7 +454,7 @@ def polygon_case(rng, allow_tilt=True, kind=None, straight_frac=0.12):
             "tilted": bool(tilt), "ccw": bool(ccw_about_normal), "straight_corner": straight,
             "convex": straight is None and is_convex_ccw(xy if ccw_in_plane else xy[::-1]),
             "size": diameter(V), "xy_plane": (not tilt), "lattice": k == "lattice" and not tilt,
-            "normal_mode": mode}
+            "normal_mode": mode, "far": far}
 
 
 # ---------------------------------------------------------------------------
